@@ -9,8 +9,10 @@
    is an ORACLE: every token string of a case comes with the facts the harness knows
    from how it built the token.  Executable definitions only; proofs in proof/JwtProofs.v.
    The model is faithful to the code as it is, i.e. WITH the repair in PostHandler (the
-   upload's needle must equal the needle of the checked fid) and WITH DeleteHandler ignoring
-   the errors of NewVolumeId / ParsePath (finding C34/0, trig_delete_unparsed).
+   upload's needle must equal the needle of the checked fid) and WITH the repair in
+   DeleteHandler (the errors of NewVolumeId / ParsePath are answered 400 after the token
+   check; formerly finding C34/0: they were ignored and the store consulted with volume 0 /
+   needle 0).
    needle.NewVolumeId, ParseNeedleIdCookie, Needle.ParsePath and ParseFileIdFromString are
    modelled numerically (parse_vid, parse_nic, parse_path_st, claim_den). *)
 From Coq Require Import List NArith ZArith Bool String Ascii Arith.
@@ -355,12 +357,17 @@ Definition delete (tab : toktab) (cfg : config) (rq : request) : hresult :=
   match parse_url_path (rq_path rq) with
   | None => Panicked
   | Some (vid, fid) =>
-      (* volumeId, _ := needle.NewVolumeId(vid); n.ParsePath(fid): both errors are ignored, the
-         zero volume id / whatever ParsePath left in n are used *)
-      let vol := match parse_vid vid with Some v => v | None => 0%N end in
-      let st := fst (parse_path_st fid) in
+      (* volumeId, ve := needle.NewVolumeId(vid); pe := n.ParsePath(fid); the token check (401);
+         then ve != nil -> 400, pe != nil -> 400 (the repair of the former finding C34/0) *)
       if negb (check_jwt tab cfg true rq vid fid) then Unauthorized
-      else Proceed vid fid (vol, fst st, snd st)
+      else match parse_vid vid with
+           | None => BadRequest
+           | Some vol =>
+               match parse_path fid with
+               | None => BadRequest
+               | Some (id, ck) => Proceed vid fid (vol, id, ck)
+               end
+           end
   end.
 
 Definition handle (tab : toktab) (cfg : config) (rq : request) : hresult :=
@@ -374,25 +381,6 @@ Definition handle (tab : toktab) (cfg : config) (rq : request) : hresult :=
       if rq_public rq then NoRoute
       else if whitelist_blocks cfg rq then Unauthorized
       else delete tab cfg rq
-  end.
-
-(* ---- finding C34/0: what the path names, as numbers; None = the volume id or the file id
-   (without its _suffix) does not parse ---- *)
-Definition request_den (path : string) : option addr :=
-  match parse_url_path path with
-  | Some (vid, fid) =>
-      match parse_vid vid, parse_nic (strip_suffix fid) with
-      | Some vol, Some (id, ck) => Some (vol, id, ck)
-      | _, _ => None
-      end
-  | None => None
-  end.
-Definition is_delete (m : meth) : bool := match m with DELETE => true | _ => false end.
-Definition trig_delete_unparsed (rq : request) : bool :=
-  is_delete (rq_method rq) &&
-  match parse_url_path (rq_path rq) with
-  | Some _ => match request_den (rq_path rq) with None => true | Some _ => false end
-  | None => false
   end.
 
 (* ---- the store step (correspondence): a world of live needles ---- *)
